@@ -458,7 +458,9 @@ Definition end_ok (S : sdiagram) (from : bool) (e : send) : bool :=
   && negb (match se_class e with [] => true | _ => false end) && path_ok S (se_class e)
   && vtxt (se_mult e) && code_ok (se_agg e) && code_ok (se_vis e) && layout_ok (end_item from e) (se_layout e).
 Definition assoc_ok (S : sdiagram) (x : sassoc) : bool :=
-  ident (sx_id x) && negb (contains "documentation_plain" (sx_id x)) && name_ok "documentation_plain" (sx_name x)
+  (* the NAME of an association may hold colons (the reader does not use the header of its blob) *)
+  ident (sx_id x) && negb (contains "documentation_plain" (sx_id x))
+  && match sx_name x with Some n => txt n && negb (contains "documentation_plain" n) | None => true end
   && vtxt (sx_doc x) && end_ok S true (sx_from x) && end_ok S false (sx_to x) && layout_ok (assoc_item x) (sx_layout x).
 
 Definition sdiagram_ok (S : sdiagram) : bool :=
